@@ -26,7 +26,8 @@
 (* 1.5), strs an index into the lexicographically sorted table             *)
 (* <<"", "a", "ab", "b">>; a dict payload is the sequence of <<key, value>>*)
 (* in insertion order (keys are str indices); an obj payload is            *)
-(* <<class, field values>> with class 1 = A, 2 = B(A), 3 = C(A).           *)
+(* <<class, field values>> with class 1 = A, 2 = B(A), 3 = C(A), 4 = D (a   *)
+(* class that does NOT opt into symbolic comparison for == / != / hash()).  *)
 (* Table cells are ints: 0 = False, 1 = True, 2 = the call raised, 3 = the *)
 (* call returned something that is not a bool.                             *)
 (***************************************************************************)
@@ -87,7 +88,7 @@ EqV(x, y) ==
                               /\ \A k \in 1..Len(Flds(x)) : EqV(Flds(x)[k], Flds(y)[k])
 
 \* the type-order table of the documentation: MISSING, None, numbers, str, list, tuple, (set,) dict,
-\* then classes by qualified name (A < B < C)
+\* then classes by qualified name (A < B < C < D)
 TOrd(v) == CASE Tag(v) = "mis" -> 0 [] Tag(v) = "none" -> 1 [] IsNum(v) -> 2 [] Tag(v) = "str" -> 3
              [] Tag(v) = "list" -> 4 [] Tag(v) = "tup" -> 5 [] Tag(v) = "dict" -> 7
              [] Tag(v) = "obj" -> 10 + Cls(v)
@@ -148,7 +149,7 @@ Lists1 == {Lv(s) : s \in SeqsUpTo2(ListElems)}
 Dicts1 == {Dv(s) : s \in DictsOver(DictVals)}
 Tups1 == {Tv(s) : s \in SeqsUpTo2(TupElems)}
 Objs1 == {Ov(1, <<x>>) : x \in ObjVals} \cup {Ov(2, <<x>>) : x \in ObjVals}
-         \cup {Ov(3, <<x, y>>) : x \in ObjVals2, y \in ObjVals2}
+         \cup {Ov(3, <<x, y>>) : x \in ObjVals2, y \in ObjVals2} \cup {Ov(4, <<x>>) : x \in ObjVals2}
 
 D12 == Dv(<<<<KA, I1>>, <<KB, I2>>>>)      \* {'a': 1, 'b': 2}
 D21 == Dv(<<<<KB, I2>>, <<KA, I1>>>>)      \* {'b': 2, 'a': 1}
@@ -156,7 +157,7 @@ D13 == Dv(<<<<KA, I1>>, <<KB, Iv(3)>>>>)
 D5 == Dv(<<<<KA, Iv(5)>>>>)                \* {'a': 5}: lies between D12 and D21 in insertion order
 \* depth-1 containers that are nested once more
 Inner == {Lv(<<>>), Lv(<<I1>>), Lv(<<I2>>), Lv(<<I1, I2>>), Dv(<<>>), D12, D21, D5, Dv(<<<<KA, I1>>>>),
-          Ov(1, <<I1>>), Ov(1, <<I2>>), Ov(2, <<I1>>), Tv(<<I1>>)}
+          Ov(1, <<I1>>), Ov(1, <<I2>>), Ov(2, <<I1>>), Ov(4, <<I1>>), Tv(<<I1>>)}
          \cup (IF Thorough THEN {Lv(<<NONEv>>), Dv(<<<<KB, I2>>>>), D13, Dv(<<<<KB, Iv(3)>>, <<KA, I1>>>>),
                                  Ov(3, <<I1, I2>>), Ov(1, <<NONEv>>), Tv(<<I1, I2>>), Tv(<<>>)} ELSE {})
 InnerSmall == {Lv(<<I1>>), D12, D21, Ov(1, <<I1>>)}
@@ -185,7 +186,7 @@ N == Len(U)
 Ix == 1..N
 V(a) == U[a].v
 
-IsSymObj(a) == Tag(V(a)) = "obj"                  \* classes that opt into symbolic comparison
+IsSymObj(a) == Tag(V(a)) = "obj" /\ Cls(V(a)) \in {1, 2, 3}      \* classes that opt into symbolic comparison
 HashDef(a) == IsAtom(V(a)) \/ Tag(V(a)) \in {"tup", "obj"} \/ U[a].pg = 1
 
 -----------------------------------------------------------------------------
@@ -194,13 +195,13 @@ HashDef(a) == IsAtom(V(a)) \/ Tag(V(a)) \in {"tup", "obj"} \/ U[a].pg = 1
 \* the rules give no answer for None < None and MISSING < MISSING (rule 1 needs `<`, rule 3 containers)
 SelfAtom(a, b) == Tag(V(a)) \in {"mis", "none"} /\ Tag(V(b)) = Tag(V(a))
 
-\* two values hold, at the same position, dicts with the same key set in different insertion order
+\* two values hold, at the same position (same index / same key, at any depth), dicts with the same key set in
+\* different insertion order
 RECURSIVE Conflict(_, _)
 Conflict(x, y) ==
   IF Tag(x) = "dict" /\ Tag(y) = "dict"
-  THEN /\ DKeySet(x) = DKeySet(y)
-       /\ \/ DKeys(x) # DKeys(y)
-          \/ \E key \in DKeySet(x) : Conflict(DVal(x, key), DVal(y, key))
+  THEN \/ DKeySet(x) = DKeySet(y) /\ DKeys(x) # DKeys(y)
+       \/ \E key \in DKeySet(x) \cap DKeySet(y) : Conflict(DVal(x, key), DVal(y, key))
   ELSE IF Tag(x) = "dict" \/ Tag(y) = "dict" THEN FALSE
   ELSE IF IsSeqLike(x) /\ IsSeqLike(y)
   THEN \E k \in 1..(IF Len(x[2]) < Len(y[2]) THEN Len(x[2]) ELSE Len(y[2])) : Conflict(x[2][k], y[2][k])
